@@ -33,8 +33,8 @@ func (r *Rng) Intn(n int) int {
 	}
 	return int(r.U64() % uint64(n))
 }
-func (r *Rng) Bool() bool          { return r.U64()&1 == 1 }
-func (r *Rng) Chance(p int) bool   { return r.Intn(100) < p } // p percent
+func (r *Rng) Bool() bool              { return r.U64()&1 == 1 }
+func (r *Rng) Chance(p int) bool       { return r.Intn(100) < p } // p percent
 func (r *Rng) Pick(xs []string) string { return xs[r.Intn(len(xs))] }
 func (r *Rng) Bytes(n int) []byte {
 	b := make([]byte, n)
